@@ -274,7 +274,8 @@ def part_match(ctx: Ctx, rng: random.Random) -> int:
 
 # ---------------------------------------------------------------------- part 2: precedence of rules
 RULE_NAMES = ["a", "_a", "a.c", "a._c", "a.c._m", "a.c.__d__", "a.c.__p", "b.c", "b._c.m", "_a.c.m"]
-MATCH_STRINGS = ["a.c", "a.*", "**", "*._c", "**.__*__", "a.c._m", "?.c", "**.m", "a.c.*", "_*"]
+# the 8th is a pattern made of a set only (no * or ?): it must still be treated as a pattern (a.[bc] matches a.c)
+MATCH_STRINGS = ["a.c", "a.*", "**", "*._c", "**.__*__", "a.c._m", "?.c", "a.[bc]", "**.m", "[!b].c._m", "a.c.*"]
 
 
 def part_rules(ctx: Ctx, rng: random.Random) -> int:
